@@ -178,4 +178,10 @@ PROPS = {
             R("h26", "c14", "TestC14_RegisterCancelStress", (400, 8, 1500), (20000, 16, 8000)),
         ],
     },
+    "C15": {
+        "level": "exploration",
+        "units": [
+            R("h26", "c15", "TestC15_Scripts", (1500, 8, 1500), (100000, 16, 8000)),
+        ],
+    },
 }
